@@ -568,6 +568,10 @@ func (g *gen) stepRandom() {
 	if focus == "handshake" && g.r.Chance(3, 5) && g.stepHandshake() {
 		return
 	}
+	if focus == "counts" && g.r.Chance(1, 8) {
+		g.do("ADMIN")
+		return
+	}
 	if (focus == "restart" || focus == "routing") && g.nsteps > 8 && g.r.Chance(1, 14) {
 		// graceful restart: drop every connection first, restart, connect again and look at what came back
 		for _, c := range append([]int{}, g.conns...) {
@@ -994,6 +998,11 @@ func genSession(seed uint64, idx int, steps int, kind string, work string, settl
 		g.openConn()
 	}
 	guard := 0
+	if focus == "hostile" && kind == "racy" {
+		stopPoll := make(chan struct{})
+		defer close(stopPoll)
+		s.startAdminPoller(stopPoll)
+	}
 	for g.nsteps < steps && !g.wedged && guard < steps*20 {
 		guard++
 		if focus == "hostile" && kind == "racy" {
